@@ -11,23 +11,26 @@ OPS = A.BINOPS
 OPASSIGN = ["+", "-", "*", "/", "%"]
 
 
-def value(kind, alt=False):
+def value(kind, alt=False, variant=None):
+    """A value of the given kind; `variant` (0..2) selects among several values of that kind."""
+    v = (1 if alt else 0) if variant is None else variant
     if kind == "null":
         return A.Null()
     if kind == "bool":
-        return A.Bool(not alt)
+        return A.Bool([True, False, True][v])
     if kind == "int":
-        return A.Int(4 if alt else 1)
+        return A.Int([1, 4, -3][v])
     if kind == "string":
-        return A.Str("t" if alt else "s")
+        return A.Str(["s", "t", ""][v])
     if kind == "list":
-        return A.lst(A.Int(2 if alt else 1))
+        return [A.lst(A.Int(1)), A.lst(A.Int(2)), A.lst()][v]
     if kind == "object":
-        return A.obj(("a", A.Int(2 if alt else 1)))
+        return [A.obj(("a", A.Int(1))), A.obj(("a", A.Int(2))), A.obj()][v]
     if kind == "func":
-        return A.FuncE([A.Var("r")], True, [A.Return(A.Int(1))])
+        return [A.FuncE([A.Var("r")], True, [A.Return(A.Int(1))]), A.FuncE([A.Var("r")], True, [A.Return(A.Int(2))]),
+                A.FuncE([A.Var("r")], True, [])][v]
     if kind == "builtin":
-        return A.Var("print")
+        return [A.Var("print"), A.Var("print"), A.Prop(A.Str("abc"), "len", True)][v]
     raise ValueError(kind)
 
 
@@ -106,7 +109,8 @@ def build_case(desc):
     if kind == "op":
         form, op, lk, rk = desc[1:5]
         same_fn = desc[5] if len(desc) > 5 else False
-        prog = [A.Declare(V("a"), value(lk)), A.Declare(V("b"), V("a") if same_fn else value(rk, alt=True))]
+        va, vb = (desc[6], desc[7]) if len(desc) > 7 else (0, 1)
+        prog = [A.Declare(V("a"), value(lk, variant=va)), A.Declare(V("b"), V("a") if same_fn else value(rk, variant=vb))]
         prog += probes([("a", lk), ("b", rk)])
         if form == "plain":
             prog.append(A.pr(A.Bin(op, V("a"), V("b"))))
@@ -120,6 +124,15 @@ def build_case(desc):
         return {"prog": prog, "expect_error": not acc, "tags": ["op:%s:%s" % (form, op)], "check_pos": True,
                 "check_atoms": True, "post": "post_op", "op": op, "lk": lk, "rk": rk, "accept": acc,
                 "trace": True, "keep_trace": True}
+    if kind == "nested":
+        _, op, lk, rk, wrap, same = desc
+        w = (lambda e: A.lst(A.Int(0), e)) if wrap == "list" else (lambda e: A.obj(("k", A.Int(0)), ("v", e)))
+        prog = [A.Declare(V("a"), value(lk, variant=0)), A.Declare(V("b"), V("a") if same else value(rk, variant=0 if lk == rk else 1))]
+        prog += probes([("a", lk), ("b", rk)])
+        prog.append(A.pr(A.Bin(op, w(V("a")), w(V("b")))))
+        acc = lk == rk and lk not in ("func", "builtin")
+        return {"prog": prog, "expect_error": not acc, "tags": ["nested:%s:%s" % (wrap, op)], "check_pos": True, "post": "post_nested", "accept": acc,
+                "op": op, "lk": lk, "rk": rk}
     if kind == "ctx":
         _, name, k = desc
         builder, accepted = CTX[name]
@@ -167,6 +180,19 @@ def post_op(case, r, res, obs):
     return out
 
 
+def post_nested(case, r, res, obs):
+    if case["accept"] and obs.code != 0:
+        return [("C16/nested-rejected/%s" % case["op"], "containers holding two %s values must be comparable" % case["lk"])]
+    if not case["accept"] and obs.code != 103:
+        return [("C16/nested-accepted/%s" % case["op"], "containers holding a %s and a %s at the same position must not compare silently" % (case["lk"], case["rk"]))]
+    if not case["accept"]:
+        d = judge.Diag(obs.err)
+        lt, rt = TYPE_NAME[case["lk"]], TYPE_NAME[case["rk"]]
+        if d.ok and not ("'%s'" % lt in d.msg and "'%s'" % rt in d.msg):
+            return [("C16/nested-message/%s" % case["op"], "diagnostic %r does not name both types (%s, %s)" % (d.msg, lt, rt))]
+    return []
+
+
 def post_ctx(case, r, res, obs):
     if case["accept"] and obs.code != 0:
         return [("C16/ctx-rejected/%s" % case["ctx"], "%s in context %s is documented as valid but was rejected" % (case["k"], case["ctx"]))]
@@ -191,6 +217,28 @@ def run(rep, tier):
     for name in CTX:
         for k in KINDS:
             descs.append(("ctx", name, k))
+    for op in ("==", "!="):
+        for lk in KINDS:
+            for rk in KINDS:
+                for wrap in ("list", "object"):
+                    descs.append(("nested", op, lk, rk, wrap, False))
+                    if lk == rk:
+                        descs.append(("nested", op, lk, rk, wrap, True))     # the very same value in both containers
+    if tier == "thorough":
+        # every cell again with every combination of three values per kind
+        for op in OPS:
+            for lk in KINDS:
+                for rk in KINDS:
+                    for va in range(3):
+                        for vb in range(3):
+                            if (va, vb) != (0, 1):
+                                descs.append(("op", "plain", op, lk, rk, False, va, vb))
+        for form in ("var", "elem", "prop"):
+            for op in OPASSIGN:
+                for lk in KINDS:
+                    for rk in KINDS:
+                        for va, vb in ((1, 0), (2, 2), (0, 2)):
+                            descs.append(("op", form, op, lk, rk, False, va, vb))
     hook_cells = set()
 
     def on_result(res):
